@@ -292,7 +292,7 @@ class SourceWorld(BaseWorld):
         with open(p, encoding='utf-8') as f:
             text = f.read()
         n = len(text)
-        kind = rng.choice(['truncate', 'drop', 'dup', 'overwrite', 'zero', 'keyword'])
+        kind = rng.choice(['truncate', 'drop', 'dup', 'overwrite', 'zero', 'keyword', 'eio'])
         bounds = [i for i in range(1, n) if text[i - 1] in ' \n' or text[i] in ' \n{}[](),.']
         pos = rng.choice(bounds) if bounds and rng.random() < 0.5 else rng.randrange(max(n, 1))
         ln = rng.choice([1, 2, 3, 5, 8, 20, 60])
@@ -397,6 +397,8 @@ class SourceWorld(BaseWorld):
         d = os.path.join(self.dir, 'prog')
         with open(os.path.join(d, name), encoding='utf-8') as f:
             orig = f.read()
+        if op['kind'] == 'eio':
+            return self._unreadable_file(op, name, d)
         dmg = self._damage(orig, op)
         if dmg == orig:
             self.count('out:no_change')
@@ -451,6 +453,43 @@ class SourceWorld(BaseWorld):
                             f'by the grammar): {op.get("how", "compiler")} returned a specification '
                             f'with {len(o.value.get("assets", []))} assets instead of failing; '
                             f'stderr: {self.last_stderr[:200]!r}')
+        self.count('out:raised')
+        return ['damaged_read', 'raised', '']
+
+    def _unreadable_file(self, op, name, d):
+        """The read of one file of the tree fails with EIO: the compiler must not
+        return a language assembled from the files it could read."""
+        import errno
+        # is the file part of the include closure at all?
+        _, seen = self._oracle_closure_errors(d, self.files[0], {})
+        fired = {'n': 0}
+        real = self.comp.FileStream
+
+        def failing_file_stream(path, encoding='ascii', errors='strict'):
+            if os.path.basename(path) == name:
+                fired['n'] += 1
+                raise OSError(errno.EIO, 'injected EIO while reading ' + name)
+            return real(path, encoding, errors)
+        self.comp.FileStream = failing_file_stream
+        try:
+            o = self._compile(os.path.join(d, self.files[0]), how=op.get('how', 'compiler')
+                              if op.get('how') != 'reuse_retry' else 'compiler')
+        finally:
+            self.comp.FileStream = real
+        if name not in seen:
+            return ['damaged_read', 'not_in_closure', '']
+        if not fired['n']:
+            from .engine import HarnessError
+            raise HarnessError('the FileStream seam was not used for ' + name)
+        self.count('fault:unreadable_file_EIO')
+        self.rejected_damages += 1
+        if op['file'] > 0:
+            self.included_damages += 1
+        self.count('oracle:C17.rejected')
+        if not o.raised:
+            raise Violation('C17.rejected', f'reading {name} failed with EIO, yet '
+                                            f'{op.get("how", "compiler")} returned a specification '
+                                            f'with {len(o.value.get("assets", []))} assets')
         self.count('out:raised')
         return ['damaged_read', 'raised', '']
 
